@@ -6,9 +6,9 @@
    for X = classic (node_to_bytes_limit) and X = back-references (node_to_bytes_backrefs_limit).
    Proved here: the classic serializer in full (C29_classic), and for the LimitedWriter that both
    serializers write through, the same law for ANY sequence of write_all chunks
-   (C29_writer_partial). Missing for the back-reference serializer: a model of the chunk sequence
-   ser_br.rs emits and of its error mapping; that half is decided on the implementation by the
-   check's search (every limit 0..len+1), see lib/props/c29.py. *)
+   (C29_writer_partial). The back-reference serializer's half is Props/C29br.v (C29_backrefs:
+   model of ser_br.rs + read_cache_lookup.rs writing through the same LimitedWriter), built and
+   counted by the same check (lib/props/c29.py). *)
 From Clvm Require Import Model.Classic Proofs.ClassicWriter.
 Open Scope N_scope.
 
